@@ -43,6 +43,8 @@ type schemeOps struct {
 	kdfArgs func(pw string, p hparams) (bs [][]byte, ns []int64)
 	encode  func(key []byte) string
 	coqName string
+	// newHashRaw passes the cost through unchanged (sha1 only)
+	newHashRaw func(pw string, cost uint32) (string, error)
 }
 
 func ntEncode(s string) []byte {
@@ -96,7 +98,8 @@ var schemes = []*schemeOps{
 		kdfArgs: func(pw string, p hparams) ([][]byte, []int64) { return [][]byte{[]byte(pw), p.salt}, p.nums },
 	},
 	{name: "sha1", tag: 7, check: sha1.Check, coqName: "sha1",
-		newHash: func(pw string, c int) (string, error) { return sha1.NewHash(pw, uint32(1+c%40)) },
+		newHash:    func(pw string, c int) (string, error) { return sha1.NewHash(pw, uint32(1+c%40)) },
+		newHashRaw: func(pw string, c uint32) (string, error) { return sha1.NewHash(pw, c) },
 		params: func(h string) (hparams, error) {
 			s, r, err := sha1.Params(h)
 			return hparams{salt: s, nums: []int64{int64(r)}}, err
